@@ -10,6 +10,7 @@ import blocks_common as B
 import common as C
 import gen as G
 import verde as vd
+from props import large as L
 
 ID = "C11"
 TRANSLATED = "cvsplit"     # Gen/Utils.lean (partition_by_sum) and Gen/CVSplit.lean (BlockKFold / BlockShuffleSplit._iter_test_indices) are regenerated from /repo and bridged to the model in Props/C11.lean
@@ -82,6 +83,12 @@ def mk_part(sizes, parts, kind):
 
 
 def corpus():
+    return _corpus() + [L.case("kfold_blocks", [30011, 1, [30, 30], 3, True], "corpus-many-blocks"),
+                       L.case("kfold_blocks", [20000, 2, [25, 26], 2, True], "corpus-many-blocks"),
+                       L.case("kfold_blocks", [9001, 3, [40, 40], 4, False], "corpus-many-blocks")]
+
+
+def _corpus():
     import random
     rng = random.Random(7)
     cs = [mk_part(list(range(10)), 2, "corpus-partition"), mk_part(list(range(10)), 3, "corpus-partition"),
@@ -190,6 +197,9 @@ def _splits_fresh(cv, es, ns):
 
 
 def impl(case):
+    if case["fn"] == "large":
+        r = C.call(L.run, case["args"])
+        return r if C.is_err(r) else ["large", r]
     a = case["args"]
     fn = case["fn"]
     if fn == "partition":
@@ -246,6 +256,8 @@ def _best_sets(case):
 
 
 def compare(case, io, mo):
+    if case["fn"] == "large":
+        return "diff:implementation failed: " + io[1] if C.is_err(io) else "ok"
     r = C.std_compare(io, mo, tol=0.0)
     if r != "ok" and case["fn"] == "shuffle" and not C.is_err(io) and not C.is_err(mo):
         try:
@@ -278,6 +290,8 @@ def _check_split(labels, tr, te, n):
 
 
 def oracle(case, io):
+    if case["fn"] == "large":
+        return (io[1] or None) if not C.is_err(io) else "failed on a large input: " + io[1]
     a = case["args"]
     fn = case["fn"]
     if fn == "partition":
@@ -374,6 +388,8 @@ def oracle(case, io):
 
 
 def nontrivial(case, io):
+    if case["fn"] == "large":
+        return not C.is_err(io)
     if C.is_err(io):
         return False
     if case["fn"] == "partition":
